@@ -142,6 +142,8 @@ class Election:
         "post-election sanity check"
         nElected = len(self.elected)
         nEligible = len(self.C.eligible())
+        if self.rule.name == 'mpls':    # undeclared write-ins are never elected under the Minneapolis rule
+            nEligible = len([c for c in self.C.eligible() if not c.isUndeclared])
         assert(nElected == self.nSeats or
                nElected < self.nSeats and nElected == nEligible)
 
